@@ -724,7 +724,13 @@ pub fn replay(prop: &dyn Prop, path: &str) -> i32 {
     };
     let seed = v["seed"].as_u64().unwrap_or(1);
     let idx = v["idx"].as_u64().unwrap_or(0);
-    let r = catch(|| prop.run_case(seed, idx, true));
+    // a replay file may carry an explicit, generator-independent witness (top level "witness", or the one the monitor
+    // stored in the violation detail); it is preferred over (seed, idx), which depends on the generators' current state
+    let explicit = if v["witness"].is_object() { Some(v["witness"].clone()) } else if v["detail"]["explicit_witness"].is_object() { Some(v["detail"]["explicit_witness"].clone()) } else { None };
+    let r = catch(|| match &explicit {
+        Some(w) => prop.run_witness(w).unwrap_or_else(|| prop.run_case(seed, idx, true)),
+        None => prop.run_case(seed, idx, true),
+    });
     match r {
         Ok(o) => {
             println!("case seed={} idx={} nontrivial={} inconclusive={:?}", seed, idx, o.nontrivial, o.inconclusive);
